@@ -114,7 +114,7 @@ Proof.
   assert (HWW : sqrt w * sqrt w = w) by (apply sqrt_sqrt; lra).
   assert (HN : 0 < N) by (unfold N; apply Rdiv_lt_0_compat; assumption).
   assert (HNN : N * N * w = a * a).
-  { unfold N. rewrite <- HWW. field. lra. }
+  { unfold N. transitivity (a / sqrt w * (a / sqrt w) * (sqrt w * sqrt w)); [rewrite HWW; reflexivity | field; lra]. }
   split; [exact HN|]. split.
   - unfold ellipsoid_F, geodetic_point. fold w. fold N. cbn [vx vy vz].
     replace ((N + 0) * cos lat * cos lon * ((N + 0) * cos lat * cos lon) + (N + 0) * cos lat * sin lon * ((N + 0) * cos lat * sin lon))
@@ -135,17 +135,21 @@ Proof. pose proof (sc lon). rot_unfold. repeat split; mat3_with ltac:(nra). Qed.
 
 Lemma north_completes_rh lat lon :
   enu_north lat lon = cross (enu_up lat lon) (enu_east lat lon) /\
-  norm2 (enu_north lat lon) = 1 /\ norm2 (enu_up lat lon) = 1 /\ 0 <= dot (enu_north lat lon) ez.
+  norm2 (enu_north lat lon) = 1 /\ norm2 (enu_up lat lon) = 1 /\ dot (enu_north lat lon) ez = cos lat.
 Proof.
   pose proof (sc lon) as Hlon. pose proof (sc lat) as Hlat.
   assert (Hc : 0 <= cos lat * cos lat) by (pose proof (Rle_0_sqr (cos lat)); unfold Rsqr in *; lra).
-  rot_unfold. repeat split; mat3_with ltac:(try nra).
-  - replace (- cos lon * sin lat * (- cos lon * sin lat) + - sin lon * sin lat * (- sin lon * sin lat) + cos lat * cos lat)
-      with ((sin lon * sin lon + cos lon * cos lon) * (sin lat * sin lat) + cos lat * cos lat) by ring.
+  assert (Hz : cos lat * (sin lon * sin lon + cos lon * cos lon) = cos lat) by (rewrite Hlon; ring).
+  rot_unfold. split; [mat3_with ltac:(first [ring | nra]) | split; [|split]].
+  - mat3_unfold.
+    match goal with |- ?l = 1 =>
+      replace l with ((sin lon * sin lon + cos lon * cos lon) * (sin lat * sin lat) + cos lat * cos lat) by ring end.
     rewrite Hlon. lra.
-  - replace (cos lon * cos lat * (cos lon * cos lat) + sin lon * cos lat * (sin lon * cos lat) + sin lat * sin lat)
-      with ((sin lon * sin lon + cos lon * cos lon) * (cos lat * cos lat) + sin lat * sin lat) by ring.
+  - mat3_unfold.
+    match goal with |- ?l = 1 =>
+      replace l with ((sin lon * sin lon + cos lon * cos lon) * (cos lat * cos lat) + sin lat * sin lat) by ring end.
     rewrite Hlon. lra.
+  - mat3_unfold. ring.
 Qed.
 
 (* ---------------------------------------------------------------- along / cross / radial *)
@@ -176,6 +180,9 @@ Lemma vunit_of_unit w : norm2 w = 1 -> vunit w = w.
 Proof.
   intros H. unfold vunit, norm. rewrite H, sqrt_1, Rinv_1. apply vscale_1.
 Qed.
+
+Lemma triple_id a b : dot (cross (cross a b) a) b = norm2 (cross a b).
+Proof. vec3. Qed.
 
 Section Acr.
   Variables r v : vec3.
@@ -240,30 +247,11 @@ Section Acr.
     rewrite R1', R2', R3'.
     split; [apply acr_r_eq|]. split; [apply acr_c_eq|]. split; [apply acr_a_eq|].
     rewrite acr_a_eq, acr_c_eq, acr_r_eq.
-    (* (c x ru) . v = c . (ru x v) = |r x v| / |r| *)
-    rewrite dot_comm, triple_cyclic, dot_comm.
-    unfold vunit. rewrite cross_scale_r, dot_scale_l, dot_scale_r.
-    replace (cross v r) with (vneg (cross r v)) by (symmetry; apply cross_anticomm).
-    assert (E : dot (cross r v) (cross (vneg (cross r v)) (cross r v)) = 0).
-    { rewrite triple_cyclic. rewrite cross_self. apply dot_zero_r. }
-    (* the triple product was taken in the wrong cyclic order: redo it directly *)
-    clear E.
-    pose proof (norm_pos _ Hrv) as Hn. pose proof (norm_pos _ Hr) as Hnr.
-    assert (Hd : dot (cross (cross r v) r) v = norm2 (cross r v)).
-    { unfold norm2. rewrite (dot_comm (cross (cross r v) r) v), triple_cyclic, dot_comm. reflexivity. }
-    assert (Goal' : dot (cross (vscale (/ norm (cross r v)) (cross r v)) (vscale (/ norm r) r)) v
-                    = / norm (cross r v) * / norm r * norm2 (cross r v)).
-    { rewrite cross_scale_l, cross_scale_r, !dot_scale_l, Hd. ring. }
-    assert (Hpos : 0 < / norm (cross r v) * / norm r * norm2 (cross r v)).
-    { apply Rmult_lt_0_compat; [apply Rmult_lt_0_compat; apply Rinv_0_lt_compat; assumption | apply norm2_pos; exact Hrv]. }
-    rewrite <- Goal' in Hpos.
-    (* bring the current goal to that form *)
-    match goal with |- 0 < ?g => replace g with (dot (cross (vscale (/ norm (cross r v)) (cross r v)) (vscale (/ norm r) r)) v) end;
-      [exact Hpos|].
-    rewrite cross_scale_l, cross_scale_r, !dot_scale_l.
-    rewrite (dot_comm (cross (cross r v) r) v), triple_cyclic.
-    replace (cross r v) with (vneg (cross v r)) at 2 by (symmetry; apply cross_anticomm).
-    vec3.
+    (* (c x ru) . v = |r x v| / |r| *)
+    unfold vunit. rewrite cross_scale_l, cross_scale_r, !dot_scale_l, triple_id.
+    pose proof (norm_pos _ Hrv) as Hn. pose proof (norm_pos _ Hr) as Hnr. pose proof (norm2_pos _ Hrv) as Hn2.
+    apply Rmult_lt_0_compat; [apply Rinv_0_lt_compat; exact Hn|].
+    apply Rmult_lt_0_compat; [apply Rinv_0_lt_compat; exact Hnr | exact Hn2].
   Qed.
 End Acr.
 
@@ -352,6 +340,52 @@ Proof.
   - rewrite <- E1. exact G.
   - rewrite <- E2. exact G.
   - rewrite <- E3. exact G.
+Qed.
+
+(* the same for enu2trs/trs2enu and for converted difference vectors *)
+Lemma check_all_abs_sound p tol r rI es ds :
+  (forall n, containsR (rI n) (r n)) ->
+  check_all_abs p tol rI es ds = true ->
+  Forall2 (fun e d => Rabs (eval_R r e - dyR d) <= Q2R tol) es ds.
+Proof.
+  intros H. revert ds. induction es as [|e es IH]; intros [|d ds] Hc; simpl in Hc; try discriminate.
+  - constructor.
+  - apply andb_prop in Hc. destruct Hc as [H1 H2]. constructor.
+    + exact (check_close_sound p tol e r rI d H H1).
+    + apply IH. exact H2.
+Qed.
+
+Lemma Forall2_map_eval (P : R -> dy -> Prop) r es m :
+  Forall2 (fun e d => P (eval_R r e) d) es m -> Forall2 P (map (eval_R r) es) m.
+Proof. revert m. induction es; intros m' HF; inversion HF; subst; simpl; constructor; auto. Qed.
+
+Lemma check_enu_sound to_trs lat lon m :
+  check_enu (to_trs, lat, lon, m) = 0%Z ->
+  Forall2 (fun x d => Rabs (x - dyR d) <= Q2R rel12 * Rabs (dyR d) + Q2R abs15)
+          (mat_entries (if to_trs then enu2trs (dyR lat) (dyR lon) else trs2enu (dyR lat) (dyR lon))) m.
+Proof.
+  intros Hc. unfold check_enu, verdict in Hc.
+  destruct (_ && _) eqn:E; [|discriminate].
+  apply andb_prop in E. destruct E as [E _].
+  pose proof (check_all_sound p128 rel12 abs15 (env_dyR [lat; lon]) (env_dy p128 [lat; lon]) _ m (env_dy_contains p128 [lat; lon]) E) as G.
+  apply (Forall2_map_eval (fun x d => Rabs (x - dyR d) <= Q2R rel12 * Rabs (dyR d) + Q2R abs15)) in G.
+  destruct (model_exprs_ok 0 (dyR lat) (dyR lon)) as [_ [_ [_ [_ [_ [_ [E1 E2]]]]]]].
+  destruct to_trs; [rewrite <- E1 | rewrite <- E2]; exact G.
+Qed.
+
+Lemma check_delta_sound to_trs lat lon d1 d2 d3 out :
+  check_delta (to_trs, lat, lon, [d1; d2; d3], out) = 0%Z ->
+  Forall2 (fun x o => Rabs (x - dyR o) <= Q2R (delta_tol [d1; d2; d3]))
+          (vec_entries (mvec (if to_trs then enu2trs (dyR lat) (dyR lon) else trs2enu (dyR lat) (dyR lon))
+                             (V3 (dyR d1) (dyR d2) (dyR d3)))) out.
+Proof.
+  intros Hc. unfold check_delta, verdict in Hc.
+  destruct (_ && _) eqn:E; [|discriminate].
+  apply andb_prop in E. destruct E as [E _].
+  pose proof (check_all_abs_sound p128 _ (env_dyR (lat :: lon :: [d1; d2; d3])) (env_dy p128 (lat :: lon :: [d1; d2; d3])) _ out
+                (env_dy_contains p128 _) E) as G.
+  apply (Forall2_map_eval (fun x o => Rabs (x - dyR o) <= Q2R (delta_tol [d1; d2; d3]))) in G.
+  destruct to_trs; exact G.
 Qed.
 
 (* ---------------------------------------------------------------- the quirk is not the specification *)
